@@ -1,5 +1,6 @@
 import QVerif.Driver.Util
 import QVerif.Model.Encoder
+import QVerif.Model.EncoderPoly
 open Lean QVerif.Driver QVerif.Encoder
 
 namespace QVerif.Driver.Encoder
@@ -42,6 +43,19 @@ def handle : Handler := fun op j =>
         let es := bss.map (fun b => ratJson (energyOf pen inst vars limit (parseBits b)))
         let ds := bss.map (fun b => toJson (translate vars (parseBits b)))
         pure (Json.mkObj [("energies", Json.arr es.toArray), ("decoded", Json.arr ds.toArray)])
+  | "enc.table" => do
+    -- the Hamiltonian as an operator: canonical table  Z positions -> coefficient  (Model/EncoderPoly.lean)
+    let inst ← parseInst (← getObj j "inst")
+    let limit ← getNat j "limit"
+    let p ← getObj j "pen"
+    let pen : Penalties := { enc := ← getRat p "enc", ovl := ← getRat p "ovl", prec := ← getRat p "prec",
+                             opt := ← getRat p "opt", share := ← getRat p "share" }
+    match energyPoly pen inst limit with
+    | .error e => pure (Json.mkObj [("err", errStr e)])
+    | .ok H =>
+      let t := normalize H
+      pure (Json.mkObj [("raw_terms", toJson H.length),
+        ("table", Json.arr (t.map (fun e => Json.arr #[ratJson e.1, toJson e.2])).toArray)])
   | "enc.decode" => do
     let inst ← parseInst (← getObj j "inst")
     let limit ← getNat j "limit"
